@@ -118,6 +118,7 @@ CHECKS["C13"] = dict(
     rule="(a) non-trivial = history containing a merge whose payload entry has one changed and one unchanged time field; (b) non-trivial = >=2 payloads queued. "
          "distinct = distinct case value.",
     legs=[dict(name="delta", test="^TestDeltaExact$", quick=dict(n=4000, procs=4, timeout=300), thorough=dict(n=250000, procs=12, timeout=2400)),
+          dict(name="damaged-payload", test="^TestDamagedPayload$", quick=dict(n=60, procs=2, batch=30, timeout=600), thorough=dict(n=1500, procs=4, batch=50, timeout=1800)),
           dict(name="large-payload", test="^TestLargePayload$", kind="plain", quick=dict(n=1, procs=1, timeout=600), thorough=dict(n=1, procs=1, timeout=600)),
           dict(name="concurrent-merges", test="^TestDeltaUnderConcurrency$", quick=dict(n=3000, procs=4, timeout=300), thorough=dict(n=200000, procs=12, timeout=2400)),
           dict(name="sender", test="^(TestProbeCoalescedLost|TestSenderQueue)$", quick=dict(n=8000, procs=2, timeout=300), thorough=dict(n=300000, procs=4, timeout=2400))],
